@@ -36,6 +36,11 @@ Definition init : state := mkSt [] [].
 Record cfg := mkCfg { dedupe : bool; skip_current : bool; null_match : bool }.
 Definition shipped : cfg := mkCfg false false false.
 Definition fixed : cfg := mkCfg true true true.
+(** the code after the fix "record_tags treats a key-value pair listed twice as one tag" (the real
+    code removes repeated tag rows by tag_hash after the parents are known; the keys of the call
+    and hence the parents are the same with or without repetitions, so removing the repeated
+    pairs first, as [record_tags] below does, gives the same rows) *)
+Definition deduped : cfg := mkCfg true false false.
 
 Inductive outcome := Done (s : state) | DbError (s : state) | CliError (s : state) | OutOfFuel.
 
